@@ -27,7 +27,12 @@ func JSONExpressible(n *Node) (bool, string) {
 		if n.Code != nil {
 			return false, "coded_byte_array_by_value"
 		}
-	case KSlice, KArray, KPtr:
+	case KPtr:
+		if n.Elem.Kind == KByteArr {
+			return true, "" // {type, key: hex} object, read back through the pointer
+		}
+		return JSONExpressible(n.Elem)
+	case KSlice, KArray:
 		return JSONExpressible(n.Elem)
 	case KStruct:
 		for _, f := range n.Fields {
